@@ -23,7 +23,7 @@ def walk_order_key(path):
 def gen_case(rng):
     bsz = rng.choice((128, 256, 512, 1024, 4096, 65536))
     n = rng.choice((1, 2, 2, 3, 3, 4, 5, 6))
-    form = rng.choice(("args", "args", "args_permuted", "dir", "dir_plus_args"))
+    form = rng.choice(("args", "args", "args_permuted", "dir", "dir_plus_args", "args_stdin"))
     srcs = merge.gen_sources(rng, n, bsz, max_msgs=rng.choice((4, 12, 40)),
                              containers=("plain", "plain", "plain", "gz", "bz2", "xz", "lz4"),
                              allow_degenerate=rng.random() < 0.3, first_line_max=None)
@@ -51,6 +51,12 @@ def gen_case(rng):
         args = [s.path for s in before] + ["d"] + [s.path for s in after]
         # files that do not exist cannot be found by a walk
         srcs = [s for s in srcs if not (s.kind == "missing" and s.path.startswith("d/"))]
+    if form == "args_stdin":
+        # some of the sources named through '-': the paths on standard input stand where the '-' stands
+        paths = [s.path for s in srcs]
+        j = rng.randint(0, len(paths))
+        k = rng.randint(j, len(paths))
+        args = (paths[:j] + ["-"] + paths[k:], ("\n".join(paths[j:k]) + ("\n" if rng.random() < 0.7 else "")).encode("utf-8") if paths[j:k] else b"")
     return bsz, form, srcs, opts, args
 
 
@@ -260,9 +266,12 @@ def run_case(seed, i, tier):
     files = [core.FileSpec(s.path, s.stored, s.mtime) for s in srcs if s.stored is not None]
     # creation order on disk is part of the scenario (readdir order must not matter)
     rng.shuffle(files)
+    stdin = None
+    if isinstance(args, tuple):
+        args, stdin = args
     argv = list(opts) + (args if args is not None else [s.path for s in srcs])
-    dirs = ["d"] if args is not None else []
-    scn = core.Scenario(files, argv, None, "UTC", dirs)
+    dirs = ["d"] if (args is not None and "d" in args and stdin is None) else []
+    scn = core.Scenario(files, argv, stdin, "UTC", dirs)
     ties = len(set((m.instant) for s in srcs for m in s.msgs)) < sum(len(s.msgs) for s in srcs)
     for k in range(K):
         prng = core.rng_for(seed, PROP, i, "plan", k)
